@@ -86,13 +86,15 @@ StmtMutants(st) ==
   CASE st.kind \in {"select", "delete"} ->
          LET c == Ctx(FALSE, FALSE)  env == EnvTypes(st, c) IN
          {[st EXCEPT !.where = m] : m \in Mutants(st.where, c, env) \cup WrongLeaves("B") \cup {AKey}}
-         \cup UNION { {[st EXCEPT !.fields[i].e = m] : m \in Mutants(st.fields[i].e, c, env)} : i \in 1..Len(st.fields) }
+         \cup UNION { {[st EXCEPT !.fields[i].e = m] : m \in Mutants(st.fields[i].e, c, env)
+                                                       \cup (IF TypeOf(st.fields[i].e, c, env) \in {"S", "N"} THEN {ANot(st.fields[i].e), ANot(ANot(st.fields[i].e))} ELSE {})}
+                     : i \in 1..Len(st.fields) }
     [] st.kind = "put" ->
-         UNION { {[st EXCEPT !.pairs[i].k = m] : m \in Mutants(st.pairs[i].k, Ctx(FALSE, TRUE), <<>>) \cup KwFaults(st.pairs[i].k, AVal) \cup {ABool(TRUE)}}
-                 \cup {[st EXCEPT !.pairs[i].v = m] : m \in Mutants(st.pairs[i].v, Ctx(FALSE, TRUE), <<>>) \cup KwFaults(st.pairs[i].v, AVal) \cup {ABool(TRUE)}}
+         UNION { {[st EXCEPT !.pairs[i].k = m] : m \in Mutants(st.pairs[i].k, Ctx(FALSE, TRUE), <<>>) \cup KwFaults(st.pairs[i].k, AVal) \cup {ABool(TRUE), ANot(st.pairs[i].k), ANot(ANot(st.pairs[i].k))}}
+                 \cup {[st EXCEPT !.pairs[i].v = m] : m \in Mutants(st.pairs[i].v, Ctx(FALSE, TRUE), <<>>) \cup KwFaults(st.pairs[i].v, AVal) \cup {ABool(TRUE), ANot(st.pairs[i].v), ANot(ANot(st.pairs[i].v))}}
                  : i \in 1..Len(st.pairs) }
     [] st.kind = "remove" ->
-         UNION { {[st EXCEPT !.keys[i] = m] : m \in Mutants(st.keys[i], Ctx(TRUE, TRUE), <<>>) \cup KwFaults(st.keys[i], AKey) \cup KwFaults(st.keys[i], AVal) \cup {ABool(FALSE)}}
+         UNION { {[st EXCEPT !.keys[i] = m] : m \in Mutants(st.keys[i], Ctx(TRUE, TRUE), <<>>) \cup KwFaults(st.keys[i], AKey) \cup KwFaults(st.keys[i], AVal) \cup {ABool(FALSE), ANot(st.keys[i]), ANot(ANot(st.keys[i]))}}
                  : i \in 1..Len(st.keys) }
     [] OTHER -> {}
 
